@@ -71,7 +71,7 @@ example : ¬ ScopeRel (entryState none [("x", .u64 1)] []) (Scope.root [] []) :=
 every loop context of the compiler, every VM state whose scope corresponds to the evaluator's,
 every value stack, every evaluator fuel.  `bounded`: the step fuel is at most `|code|`. -/
 def CompileExprCorrect (P : Expr → Prop) (bounded : Bool) : Prop :=
-  ∀ (rec : VmCtx → Chunk → State → RunRes) (venv : Vm.Env) (eenv : Tera.Env) (vm : VmCtx)
+  ∀ (venv : Vm.Env) (eenv : Tera.Env) (vm : VmCtx)
     (name : String) (pre post vcode : List VEntry) (loop : Option Nat) (e : Expr),
     P e → EnvRel venv eenv → BuiltinsRel venv eenv →
     embed (exprCode pre.length loop e) = some vcode →
@@ -79,32 +79,16 @@ def CompileExprCorrect (P : Expr → Prop) (bounded : Bool) : Prop :=
     ∀ (st : State) (sc : Scope), ScopeRel st sc → ∀ (fuel : Nat),
       (∀ v, evalExpr fuel eenv sc e = .ok v →
         ∃ n rg, (bounded = true → n ≤ vcode.length) ∧ SpanOk ⟨name, pre ++ vcode ++ post⟩ rg ∧
-          ∀ k, runLoop rec venv vm ⟨name, pre ++ vcode ++ post⟩ (n + k) pre.length st
+          ∀ rec k, runLoop rec venv vm ⟨name, pre ++ vcode ++ post⟩ (n + k) pre.length st
             = runLoop rec venv vm ⟨name, pre ++ vcode ++ post⟩ k (pre.length + vcode.length)
                 (st.push v rg))
       ∧ (∀ err, evalExpr fuel eenv sc e = .error err → reportable err = true →
         ∃ n re, (bounded = true → n ≤ vcode.length) ∧ errMatch err re = true ∧
-          ∀ k, runLoop rec venv vm ⟨name, pre ++ vcode ++ post⟩ (n + k) pre.length st = .err re)
+          ∀ rec k, runLoop rec venv vm ⟨name, pre ++ vcode ++ post⟩ (n + k) pre.length st = .err re)
 
 /-- Full strength: every expression the parser can produce (`exprScoped`: no binary `Is` /
 `Pipe` node).  NOT proved in full: `compile_expr_correct_core` proves it for `InCore`. -/
 def compile_expr_correct_full : Prop := CompileExprCorrect (fun e => exprScoped e = true) false
-
-theorem embed_length : ∀ {code : Code} {vcode : List VEntry}, embed code = some vcode →
-    vcode.length = code.length
-  | [], vcode, h => by simp [embed] at h; subst h; rfl
-  | ce :: rest, vcode, h => by
-    simp only [embed, List.mapM_cons, Option.bind_eq_bind, Option.pure_def] at h
-    cases hv : Pipeline.vinstr ce.1 with
-    | none => simp [hv] at h
-    | some vi =>
-      simp only [hv, Option.map_some, Option.bind_some] at h
-      cases hr : List.mapM (fun ce => (Pipeline.vinstr ce.1).map fun vi => (vi, Pipeline.spansOf ce.2)) rest with
-      | none => simp [hr] at h
-      | some vrest =>
-        simp only [hr, Option.bind_some, Option.some.injEq] at h
-        subst h
-        simp [embed_length (code := rest) hr]
 
 /-- `compile_expr_correct` on the core `InCore lf`: constants, variables, (optional) attribute
 access, `not`, unary minus, `* / // % + - **`, `< > <= >=`, `== !=`, `~`, `in`, `and`, `or`
@@ -114,7 +98,7 @@ table: `BuiltinsRel`), and — with `lf = false` — list comprehensions (with k
 nested arbitrarily; with `lf = true` (no comprehension) the step fuel is at most `|code|`.
 Not covered: component calls. -/
 theorem compile_expr_correct_core (lf : Bool) : CompileExprCorrect (InCore lf) lf := by
-  intro rec venv eenv vm name pre post vcode loop e hcore hE hB hemb ht st sc hsc fuel
+  intro venv eenv vm name pre post vcode loop e hcore hE hB hemb ht st sc hsc fuel
   have hlen := embed_length hemb
   have hcode := codeAt_of_embed (name := name) (pre := pre) (post := post) hemb
   have hsim := expr_sim hE hB ht fuel e hcore pre.length loop st sc hsc hcode
@@ -122,13 +106,13 @@ theorem compile_expr_correct_core (lf : Bool) : CompileExprCorrect (InCore lf) l
   · intro v hv
     rw [hv] at hsim
     obtain ⟨tr, rg, hrun, hsp, _, hl⟩ := hsim
-    refine ⟨tr.length, rg, fun h => by have := hl h; omega, hsp, fun k => ?_⟩
+    refine ⟨tr.length, rg, fun h => by have := hl h; omega, hsp, fun rec k => ?_⟩
     rw [hlen]
-    exact hrun.runLoop k
+    exact hrun.runLoop rec k
   · intro err hv hrep
     rw [hv] at hsim
     obtain ⟨tr, re, hf, hm, _, hl⟩ := hsim hrep
-    exact ⟨tr.length, re, fun h => by have := hl h; omega, hm, fun k => hf.runLoop k⟩
+    exact ⟨tr.length, re, fun h => by have := hl h; omega, hm, fun rec k => hf.runLoop rec k⟩
 
 /-- The same with the code anywhere in any chunk (`CodeAt`) and with the trace: the run executes
 only instructions of the expression's own range (at most `|code|` of them when `lf = true`). -/
@@ -143,13 +127,14 @@ theorem compile_expr_correct_at {venv : Vm.Env}
 /-- never a panic, never `unmodelled`, never out of step fuel: on the loop-free core, with
 `|code|` units of step fuel the loop is past the expression's code (with the evaluator's value on
 the stack) or has returned a rendering error, whenever the evaluator gives a value or a
-reportable error -/
+reportable error — whatever the nested interpreter `rec` is -/
 theorem compile_expr_no_panic {venv : Vm.Env}
     {eenv : Tera.Env} {vm : VmCtx} {c : Chunk} (hE : EnvRel venv eenv) (hB : BuiltinsRel venv eenv)
     (ht : reportTargetOk venv vm c = true) (fuel : Nat) (e : Expr) (hcore : InCore true e)
     (base : Nat) (loop : Option Nat) (st : State) (sc : Scope) (hsc : ScopeRel st sc)
     (hcode : CodeAt c base (exprCode base loop e))
-    (hrep : ∀ err, evalExpr fuel eenv sc e = .error err → reportable err = true) (k : Nat) :
+    (hrep : ∀ err, evalExpr fuel eenv sc e = .error err → reportable err = true)
+    (rec : VmCtx → Chunk → State → RunRes) (k : Nat) :
     (∃ v rg n, n ≤ (exprCode base loop e).length ∧ evalExpr fuel eenv sc e = .ok v ∧
         runLoop rec venv vm c ((exprCode base loop e).length + k) base st
           = runLoop rec venv vm c ((exprCode base loop e).length - n + k)
@@ -162,14 +147,14 @@ theorem compile_expr_no_panic {venv : Vm.Env}
     obtain ⟨tr, rg, hrun, _, _, hl⟩ := hsim
     have hl := hl rfl
     refine .inl ⟨v, rg, tr.length, hl, rfl, ?_⟩
-    have := hrun.runLoop ((exprCode base loop e).length - tr.length + k)
+    have := hrun.runLoop rec ((exprCode base loop e).length - tr.length + k)
     rw [← this]; congr 1; omega
   | error err =>
     rw [hv] at hsim
     obtain ⟨tr, re, hf, _, _, hl⟩ := hsim (hrep err hv)
     have hl := hl rfl
     refine .inr ⟨re, ?_⟩
-    have := hf.runLoop ((exprCode base loop e).length - tr.length + k)
+    have := hf.runLoop rec ((exprCode base loop e).length - tr.length + k)
     rw [← this]; congr 1; omega
 
 /-! ## R2: evaluator theorems transferred to the compiled code -/
@@ -399,7 +384,7 @@ value stack and block bookkeeping untouched; output and capture stack are the ev
 text appended is the evaluator's), and the scope `sc'` corresponds to the evaluator's (so the
 variables assigned are the evaluator's). -/
 def CompileNodesCorrect (P : Node → Prop) (bounded : Bool) : Prop :=
-  ∀ (rec : VmCtx → Chunk → State → RunRes) (venv : Vm.Env) (eenv : Tera.Env) (vm : VmCtx)
+  ∀ (venv : Vm.Env) (eenv : Tera.Env) (vm : VmCtx)
     (name : String) (pre post vcode : List VEntry) (loop : Option Nat) (ns : List Node),
     (∀ n ∈ ns, P n) → EnvRel venv eenv → BuiltinsRel venv eenv →
     embed (nodesCode pre.length loop ns) = some vcode →
@@ -407,25 +392,27 @@ def CompileNodesCorrect (P : Node → Prop) (bounded : Bool) : Prop :=
     ∀ (st : State) (est : Tera.St), StRel st est → ∀ (fuel : Nat),
       (∀ est', execNodes fuel eenv vm.autoescape est ns = .ok (est', .normal) →
         ∃ n sc', (bounded = true → n ≤ vcode.length) ∧ ScopeSim est'.scope sc' ∧
-          ∀ k, runLoop rec venv vm ⟨name, pre ++ vcode ++ post⟩ (n + k) pre.length st
+          ∀ rec k, runLoop rec venv vm ⟨name, pre ++ vcode ++ post⟩ (n + k) pre.length st
             = runLoop rec venv vm ⟨name, pre ++ vcode ++ post⟩ k (pre.length + vcode.length)
                 (withSc st est' sc'))
       ∧ (∀ err, execNodes fuel eenv vm.autoescape est ns = .error err → reportable err = true →
         ∃ n re, (bounded = true → n ≤ vcode.length) ∧ errMatch err re = true ∧
-          ∀ k, runLoop rec venv vm ⟨name, pre ++ vcode ++ post⟩ (n + k) pre.length st = .err re)
+          ∀ rec k, runLoop rec venv vm ⟨name, pre ++ vcode ++ post⟩ (n + k) pre.length st = .err re)
 
 /-- Full strength: every statement list the parser can produce outside a loop body
 (`nodesScoped false`: no stray `break` / `continue`, no binary `Is` / `Pipe`).  NOT proved in
-full: `compile_nodes_correct_core` proves it for `InCoreNode` (no set block, filter section,
-include, block, component call). -/
+full: `compile_nodes_correct_core` proves it for `InCoreNode` (no include, block, component
+call). -/
 def compile_nodes_correct_full : Prop :=
   ∀ (ns : List Node), nodesScoped false ns = true → CompileNodesCorrect (fun n => n ∈ ns) false
 
 /-- `compile_node_correct` on the statement core `InCoreNode lf false` (outside a loop body):
 template text, `{{ e }}`, `{% set %}` / `{% set_global %}`, `{% if %}` / `{% elif %}` /
-`{% else %}`, over `InCore lf` expressions. -/
+`{% else %}`, filter sections, set blocks with filter chains, and — with `lf = false` — `for`
+loops (key / value, `else`, nested) with `break` / `continue` in their bodies, over `InCore lf`
+expressions.  Not covered: `include`, `block`, component calls. -/
 theorem compile_nodes_correct_core (lf : Bool) : CompileNodesCorrect (InCoreNode lf false) lf := by
-  intro rec venv eenv vm name pre post vcode loop ns hcore hE hB hemb ht st est hrel fuel
+  intro venv eenv vm name pre post vcode loop ns hcore hE hB hemb ht st est hrel fuel
   have hlen := embed_length hemb
   have hcode := codeAt_of_embed (name := name) (pre := pre) (post := post) hemb
   have hsim := nodes_sim hE hB ht fuel false ns hcore pre.length loop st est hrel
@@ -434,13 +421,13 @@ theorem compile_nodes_correct_core (lf : Bool) : CompileNodesCorrect (InCoreNode
   · intro est' hv
     rw [hv] at hsim
     obtain ⟨tr, sc', hsc', _, hrun, _, hl⟩ := hsim
-    refine ⟨tr.length, sc', fun h => by have := hl h; omega, hsc', fun k => ?_⟩
+    refine ⟨tr.length, sc', fun h => by have := hl h; omega, hsc', fun rec k => ?_⟩
     rw [hlen]
-    exact Run.runLoop hrun k
+    exact Run.runLoop hrun rec k
   · intro err hv hrep
     rw [hv] at hsim
     obtain ⟨tr, re, hf, hm, _, hl⟩ := hsim hrep
-    exact ⟨tr.length, re, fun h => by have := hl h; omega, hm, fun k => hf.runLoop k⟩
+    exact ⟨tr.length, re, fun h => by have := hl h; omega, hm, fun rec k => hf.runLoop rec k⟩
 
 /-- The same with the code anywhere in any chunk, inside or outside a loop body, with the trace
 and with the `break` / `continue` signals (`NodeOutcome`: where the run stops for each signal). -/
@@ -465,44 +452,47 @@ theorem compile_node_correct_at {venv : Vm.Env}
       (nodeCode base loop n).length st :=
   node_sim hE hB ht fuel inLoop n hn base loop st est hst hctx hcode
 
-/-- End to end for a template of the loop-free core: when the VM's template table holds, under
-`name`, a template without parents whose chunk is the compiled body (`nodesCode 0 none nodes`,
-embedded), and the evaluator's table holds the same body with the same autoescape flag, then
-whatever `Tera.render` (Model/Eval.lean) gives, `Vm.render` (Model/Vm.lean) gives: the same text,
-or an error of the same class — with any nesting depth `≥ 1` and any step fuel `≥ |code|`. -/
+/-- End to end for a template of the core: when the VM's template table holds, under `name`, a
+template without parents whose chunk is the compiled body (`nodesCode 0 none nodes`, embedded),
+and the evaluator's table holds the same body with the same autoescape flag, then whatever
+`Tera.render` (Model/Eval.lean) gives, `Vm.render` (Model/Vm.lean) gives: the same text, or an
+error of the same class — with any nesting depth `≥ 1` and any step fuel `≥ n`, where `n` does
+not depend on the fuel given and is at most `|code|` on the loop-free core. -/
 theorem render_correct_core (venv : Vm.Env) (eenv : Tera.Env) (hE : EnvRel venv eenv)
     (hB : BuiltinsRel venv eenv)
     (name : String) (tpl : TemplateInfo) (nodes : List Node) (vcode : List VEntry)
     (hv : venv.template name = some tpl) (hpar : tpl.parents = [])
     (hchunk : tpl.chunk = ⟨tpl.name, vcode⟩)
     (hemb : embed (nodesCode 0 none nodes) = some vcode)
-    (he : eenv.template name = some ⟨nodes, tpl.autoescape⟩)
-    (hcore : ∀ n ∈ nodes, InCoreNode true false n) (ctx g : Ctx) (fuel depth steps : Nat)
-    (hsteps : vcode.length ≤ steps) :
+    (he : eenv.template name = some ⟨nodes, tpl.autoescape⟩) (lf : Bool)
+    (hcore : ∀ n ∈ nodes, InCoreNode lf false n) (ctx g : Ctx) (fuel : Nat) :
     (∀ text, Tera.render fuel eenv name ctx g = .ok text →
-      Vm.render ⟨depth + 1, steps⟩ venv name none ctx g = .ok text)
+      ∃ n, (lf = true → n ≤ vcode.length) ∧ ∀ depth steps, n ≤ steps →
+        Vm.render ⟨depth + 1, steps⟩ venv name none ctx g = .ok text)
     ∧ (∀ err, Tera.render fuel eenv name ctx g = .error err → reportable err = true →
-      ∃ re, errMatch err re = true ∧ Vm.render ⟨depth + 1, steps⟩ venv name none ctx g = .err re) := by
+      ∃ n re, (lf = true → n ≤ vcode.length) ∧ errMatch err re = true ∧ ∀ depth steps, n ≤ steps →
+        Vm.render ⟨depth + 1, steps⟩ venv name none ctx g = .err re) := by
   have hcode := codeAt_of_embed (name := tpl.name) (pre := []) (post := []) hemb
   simp only [List.nil_append, List.append_nil, List.length_nil] at hcode
   have hlen := embed_length hemb
   let vm : VmCtx := { template := tpl, autoescapeOverride := none, depth := 0 }
   have ht : reportTargetOk venv vm ⟨tpl.name, vcode⟩ = true := by simp [reportTargetOk, vm]
-  have hsim : NodeOutcome (interp venv steps depth) venv vm ⟨tpl.name, vcode⟩ true none
+  have hsim : NodeOutcome venv vm ⟨tpl.name, vcode⟩ lf none
       (execNodes fuel eenv tpl.autoescape { scope := Scope.root ctx g, out := [], captures := [] } nodes)
       0 (nodesCode 0 none nodes).length (entryState none ctx g) :=
-    nodes_sim (rec := interp venv steps depth) (vm := vm) hE hB ht fuel false nodes hcore 0 none
+    nodes_sim (vm := vm) hE hB ht fuel false nodes hcore 0 none
       (entryState none ctx g) { scope := Scope.root ctx g, out := [], captures := [] }
       ⟨ScopeSim.refl _, rfl, rfl⟩ (fun h => by cases h) hcode
-  have hrender : Vm.render ⟨depth + 1, steps⟩ venv name none ctx g
+  have hrender : ∀ depth steps, Vm.render ⟨depth + 1, steps⟩ venv name none ctx g
       = outcomeOf none (runLoop (interp venv steps depth) venv vm ⟨tpl.name, vcode⟩ steps 0
           (entryState none ctx g)) := by
+    intro depth steps
     simp only [Vm.render, hv, lineageMissing, Bool.false_eq_true, if_false, entryChunk, hpar,
       List.head?_nil, hchunk, run, interp]
     rfl
-  have hdone : ∀ (k : Nat) (st' : State),
-      runLoop (interp venv steps depth) venv vm ⟨tpl.name, vcode⟩ k (0 + vcode.length) st' = .done st' := by
-    intro k st'
+  have hdone : ∀ (rec : VmCtx → Chunk → State → RunRes) (k : Nat) (st' : State),
+      runLoop rec venv vm ⟨tpl.name, vcode⟩ k (0 + vcode.length) st' = .done st' := by
+    intro rec k st'
     have hnone : (⟨tpl.name, vcode⟩ : Chunk).code[0 + vcode.length]? = none := by simp
     cases k <;> simp only [runLoop, hnone]
   constructor
@@ -518,12 +508,11 @@ theorem render_correct_core (venv : Vm.Env) (eenv : Tera.Env) (hE : EnvRel venv 
         simp only [hr, Except.ok.injEq] at htext
         rw [hr] at hsim
         obtain ⟨tr, sc', _, _, hrun, _, hl⟩ := hsim
-        have hl := hl rfl
-        have hrun' : Run (interp venv steps depth) venv vm ⟨tpl.name, vcode⟩ 0 (entryState none ctx g) tr
+        have hrun' : Run venv vm ⟨tpl.name, vcode⟩ 0 (entryState none ctx g) tr
             (0 + (nodesCode 0 none nodes).length) (withSc (entryState none ctx g) est' sc') := hrun
+        refine ⟨tr.length, fun h => by have := hl h; omega, fun depth steps hsteps => ?_⟩
         rw [hrender]
-        have := hrun'.runLoop (steps - tr.length)
-        rw [← hlen] at hl
+        have := hrun'.runLoop (interp venv steps depth) (steps - tr.length)
         rw [show tr.length + (steps - tr.length) = steps by omega, ← hlen, hdone] at this
         rw [this]
         simp only [outcomeOf, Option.isSome_none, Bool.false_eq_true, if_false, withSc, htext]
@@ -544,14 +533,38 @@ theorem render_correct_core (venv : Vm.Env) (eenv : Tera.Env) (hE : EnvRel venv 
       subst herr
       rw [hr] at hsim
       obtain ⟨tr, re, hf, hm, _, hl⟩ := hsim hrep
-      have hl := hl rfl
-      refine ⟨re, hm, ?_⟩
+      refine ⟨tr.length, re, fun h => by have := hl h; omega, hm, fun depth steps hsteps => ?_⟩
       rw [hrender]
-      have := hf.runLoop (steps - tr.length)
-      rw [← hlen] at hl
+      have := hf.runLoop (interp venv steps depth) (steps - tr.length)
       rw [show tr.length + (steps - tr.length) = steps by omega] at this
       rw [this]
       rfl
+
+/-- … in particular for what the model compiler makes of a parsed template: `compileTemplate`
+(Model/Compiler.lean, `Template::new` up to the optimisation pass) puts `nodesCode 0 none t.nodes`
+into the main chunk, so a VM template whose chunk is that main chunk (embedded) renders what the
+evaluator renders from the AST `t.nodes`. -/
+theorem render_correct_compiled (venv : Vm.Env) (eenv : Tera.Env) (hE : EnvRel venv eenv)
+    (hB : BuiltinsRel venv eenv) (name : String) (tpl : TemplateInfo) (t : Template)
+    (comp : Compiled) (vcode : List VEntry) (hcomp : compileTemplate t = .ok comp)
+    (hv : venv.template name = some tpl) (hpar : tpl.parents = [])
+    (hchunk : tpl.chunk = ⟨tpl.name, vcode⟩) (hemb : embed comp.main = some vcode)
+    (he : eenv.template name = some ⟨t.nodes, tpl.autoescape⟩) (lf : Bool)
+    (hcore : ∀ n ∈ t.nodes, InCoreNode lf false n) (ctx g : Ctx) (fuel : Nat) :
+    (∀ text, Tera.render fuel eenv name ctx g = .ok text →
+      ∃ n, (lf = true → n ≤ vcode.length) ∧ ∀ depth steps, n ≤ steps →
+        Vm.render ⟨depth + 1, steps⟩ venv name none ctx g = .ok text)
+    ∧ (∀ err, Tera.render fuel eenv name ctx g = .error err → reportable err = true →
+      ∃ n re, (lf = true → n ≤ vcode.length) ∧ errMatch err re = true ∧ ∀ depth steps, n ≤ steps →
+        Vm.render ⟨depth + 1, steps⟩ venv name none ctx g = .err re) := by
+  have hmain : comp.main = nodesCode 0 none t.nodes := by
+    unfold compileTemplate at hcomp
+    split at hcomp
+    · cases hcomp
+    · simp only [Except.ok.injEq] at hcomp
+      rw [← hcomp]
+  rw [hmain] at hemb
+  exact render_correct_core venv eenv hE hB name tpl t.nodes vcode hv hpar hchunk hemb he lf hcore ctx g fuel
 
 /-! ## Spot checks: concrete expressions through both models (kernel-evaluated)
 
@@ -887,5 +900,58 @@ example : agreeT exLoops false [("m", .arr [.u64 1]), ("xs", .arr [])] true = tr
 /-- an error inside the inner loop body (`x * y` with a string) -/
 example : agreeT exLoops false [("m", .map []), ("xs", .arr [.str false ['a']])] true = true := by
   decide +kernel
+
+/-- `{% filter upper %}a{{ x }}{% endfilter %}{% set t | trim | upper %} b{{ x }} {% endset %}[{{ t }}]`
+`{% set_global u %}{% filter length %}xyz{% endfilter %}{% endset %}{{ u }}` -/
+def exCaptures : List Node :=
+  [.filterSection "upper" [] [.content "a", .expression (.var "x")],
+   .blockSet "t" [.filter (.const .none) "trim" [], .filter (.const .none) "upper" []]
+     [.content " b", .expression (.var "x"), .content " "] false,
+   .content "[", .expression (.var "t"), .content "]",
+   .blockSet "u" [] [.filterSection "length" [] [.content "xyz"]] true,
+   .expression (.var "u")]
+
+example : ∀ n ∈ exCaptures, InCoreNode true false n := by
+  intro n hn
+  simp only [exCaptures, List.mem_cons, List.not_mem_nil, or_false] at hn
+  rcases hn with rfl | rfl | rfl | rfl | rfl | rfl | rfl
+  · refine .filterSection _ (fun p hp => by cases hp) (by simp) ?_
+    intro m hm
+    simp only [List.mem_cons, List.not_mem_nil, or_false] at hm
+    rcases hm with rfl | rfl
+    · exact .content _
+    · exact .expression (.var _)
+  · refine .blockSet _ _ ?_ ?_
+    · intro f hf
+      simp only [List.mem_cons, List.not_mem_nil, or_false] at hf
+      rcases hf with rfl | rfl
+      · exact ⟨_, _, _, rfl, (fun p hp => by cases hp), List.nodup_nil⟩
+      · exact ⟨_, _, _, rfl, (fun p hp => by cases hp), List.nodup_nil⟩
+    · intro m hm
+      simp only [List.mem_cons, List.not_mem_nil, or_false] at hm
+      rcases hm with rfl | rfl | rfl
+      · exact .content _
+      · exact .expression (.var _)
+      · exact .content _
+  · exact .content _
+  · exact .expression (.var _)
+  · exact .content _
+  · refine .blockSet _ _ (fun f hf => by cases hf) ?_
+    intro m hm
+    simp only [List.mem_singleton] at hm
+    subst hm
+    refine .filterSection _ (fun p hp => by cases hp) (by simp) ?_
+    intro k hk
+    simp only [List.mem_singleton] at hk
+    subst hk
+    exact .content _
+  · exact .expression (.var _)
+
+example : agreeT exCaptures true [("x", .str false ['<', 'q'])] = true := by decide +kernel
+/-- `x` undefined inside the capture: the error surfaces in both -/
+example : agreeT exCaptures true [] = true := by decide +kernel
+/-- a filter that rejects its input (`upper` of the captured text is fine, `length` of it too; make
+`x` a number so that `upper` still sees a string but the set block's `trim` sees text): -/
+example : agreeT exCaptures false [("x", .u64 5)] = true := by decide +kernel
 
 end Tera.Refine
